@@ -297,7 +297,7 @@ class Ctx:
         if _fm_infeasible(sys_):
             return True
         # use disequalities: split on those whose both sides are needed (bounded depth)
-        neqs = neqs[:6]
+        neqs = neqs[:12]
         if not neqs:
             return False
         return self._split(sys_, neqs, 0)
